@@ -32,7 +32,97 @@ def units(tier, seed):
     for d in range(2, 13):
         out.append(dict(kind="bary", d=d, tier=tier, seed=seed))
         out.append(dict(kind="sphere", d=d, tier=tier, seed=seed))
+    for d in range(2, 13):
+        # call histories: the conversions are functions of their arguments only
+        if tier == "quick" and d > 7:
+            continue
+        out.append(dict(kind="history", d=d, depth=(3 if tier == "quick" or d > 6 else 4), tier=tier, seed=seed))
     return out
+
+
+def _fresh_modules():
+    """the two modules re-executed from source: module-level state (caches, tables) as in a new process"""
+    import importlib
+
+    bm = importlib.reload(importlib.import_module("dreye.api.barycentric"))
+    sm = importlib.reload(importlib.import_module("dreye.api.spherical"))
+    return bm, sm
+
+
+def _history_ops(d, tier, seed):
+    """alphabet: (name, function of (bm, sm) -> result); arguments are fixed arrays built here (and must stay untouched)"""
+    P = _points(d, "quick", seed, signed=False)
+    P = P[P.sum(1) > 0][:: max(1, len(P) // 24)]
+    Pn = P / P.sum(1, keepdims=True)
+    Xs = _points(d, "quick", seed, signed=True)[:: max(1, 3 ** min(d, 5) // 24)]
+    bm, sm = _fresh_modules()
+    Yp = np.asarray(bm.barycentric_to_cartesian(Pn, center=False))
+    bm, sm = _fresh_modules()
+    Yc = np.asarray(bm.barycentric_to_cartesian(Pn, center=True))
+    bm, sm = _fresh_modules()
+    Ys = np.asarray(sm.cartesian_to_spherical(Xs))
+    args = dict(P=P, Pn=Pn, Xs=Xs, Yp=Yp, Yc=Yc, Ys=Ys)
+    ops = [
+        ("b2c", "barycentric_to_cartesian(Pn, center=False)", lambda bm, sm: bm.barycentric_to_cartesian(Pn, center=False)),
+        ("b2c-centred", "barycentric_to_cartesian(Pn, center=True)", lambda bm, sm: bm.barycentric_to_cartesian(Pn, center=True)),
+        ("c2b", "cartesian_to_barycentric(Yp, centered=False)", lambda bm, sm: bm.cartesian_to_barycentric(Yp, centered=False)),
+        ("c2b-centred", "cartesian_to_barycentric(Yc, centered=True)", lambda bm, sm: bm.cartesian_to_barycentric(Yc, centered=True)),
+        ("c2b-centred-L1", "cartesian_to_barycentric(Yc, L1=2.5, centered=True)", lambda bm, sm: bm.cartesian_to_barycentric(Yc, L1=2.5, centered=True)),
+        ("reduce", "barycentric_dim_reduction(P, center=False)", lambda bm, sm: bm.barycentric_dim_reduction(P, center=False)),
+        ("reduce-centred", "barycentric_dim_reduction(P, center=True)", lambda bm, sm: bm.barycentric_dim_reduction(P, center=True)),
+        ("c2s", "cartesian_to_spherical(Xs)", lambda bm, sm: sm.cartesian_to_spherical(Xs)),
+        ("s2c", "spherical_to_cartesian(Ys)", lambda bm, sm: sm.spherical_to_cartesian(Ys)),
+    ]
+    return ops, args
+
+
+def _run_history(unit, rec):
+    d, depth = unit["d"], unit["depth"]
+    ops, args = _history_ops(d, unit["tier"], unit["seed"])
+    pristine = {k: v.copy() for k, v in args.items()}
+    sig = dict(dim=d, api="call-history")
+    # reference model: every operation's answer in a fresh state (no earlier call)
+    ref = {}
+    for name, _, fn in ops:
+        bm, sm = _fresh_modules()
+        rec.trans()
+        ref[name] = np.array(fn(bm, sm), dtype=float)
+    # the references themselves: the stored images are inverted by the reverse conversions
+    if np.max(np.abs(ref["c2b"] - args["Pn"])) > 1e-12 or np.max(np.abs(ref["c2b-centred"] - args["Pn"])) > 1e-12:
+        _v(rec, "c", dict(sig, what="fresh-round-trip", variant="history"), "fresh state: reverse conversion does not invert the forward one", dict(d=d))
+        return
+    names = [o[0] for o in ops]
+    fns = {o[0]: o[2] for o in ops}
+    texts = {o[0]: o[1] for o in ops}
+    for length in range(2, depth + 1):
+        for seq in itertools.product(names, repeat=length):
+            # prefixes are covered by the shorter sequences: only the last call is new
+            bm, sm = _fresh_modules()
+            rec.path()
+            bad = None
+            for k, name in enumerate(seq):
+                rec.trans()
+                try:
+                    out = np.array(fns[name](bm, sm), dtype=float)
+                except Exception as e:  # noqa
+                    bad = ("c", "call %d (%s) raised %r" % (k + 1, name, e))
+                    break
+                if k == length - 1 or length == 2:
+                    if out.shape != ref[name].shape or not np.array_equal(out, ref[name]):
+                        dev = float(np.max(np.abs(out - ref[name]))) if out.shape == ref[name].shape else float("nan")
+                        bad = ("c", "the result of %s depends on the calls made before it (differs by %.3g from its result in a fresh state)" % (texts[name], dev))
+                        break
+            if bad is None and any(not np.array_equal(args[k], pristine[k]) for k in args):
+                bad = ("c", "an argument array was modified")
+            rec.distinct((d, seq))
+            rec.outcome("history/%s" % ("same" if bad is None else "differs"))
+            if bad:
+                scr = ("import numpy as np\nfrom dreye.api.barycentric import *\nfrom dreye.api.spherical import *\n" + "".join("%s = np.array(%r)\n" % (k, pristine[k].tolist()) for k in pristine)
+                       + "".join("r%d = %s\n" % (i, texts[nm]) for i, nm in enumerate(seq)) + "print(r%d)\n" % (len(seq) - 1))
+                _v(rec, bad[0], dict(sig, what="history:" + "->".join(seq[-2:]), variant="history"), bad[1], dict(d=d, sequence=list(seq)), script=scr.replace("\\n", "\n"))
+                for k in args:
+                    args[k][...] = pristine[k]
+    rec.sample(dict(kind="history", d=d, depth=depth, alphabet=names), cap=1)
 
 
 def _points(d, tier, seed, signed=True):
@@ -102,6 +192,8 @@ def run_unit(unit, rec):
 
     d, tier, seed = unit["d"], unit["tier"], unit["seed"]
     rec.state((unit["kind"], d))
+    if unit["kind"] == "history":
+        return _run_history(unit, rec)
     if unit["kind"] == "bary":
         n = d  # number of barycentric coordinates
         sig = dict(dim=n)
